@@ -142,7 +142,7 @@ theorem dropBOM_of_head (l : Input) (h : HeadP (fun r => !(r.code == 0xFEFF)) l 
 
 /-- a well-formed gap starts with a whitespace rune or `/` -/
 theorem Gap.head (g : Gap) (hg : Gap.ok g = true) (hne : g ≠ []) :
-    ∃ c X, Gap.runes g = asciiRune c :: X ∧ c ∈ [9, 10, 13, 32, 47] := by
+    ∃ c X, Gap.runes g = asciiRune c :: X ∧ c ∈ [9, 10, 11, 12, 13, 32, 47] := by
   cases g with
   | nil => exact absurd rfl hne
   | cons e g =>
@@ -159,12 +159,12 @@ theorem Gap.head (g : Gap) (hg : Gap.ok g = true) (hne : g ≠ []) :
     | line body => exact ⟨47, _, rfl, by decide⟩
 
 /-- every piece may end before a whitespace rune or a `/` -/
-theorem Piece.stop_gapHead (p : Piece) (c : Nat) (hc : c ∈ [9, 10, 13, 32, 47]) :
+theorem Piece.stop_gapHead (p : Piece) (c : Nat) (hc : c ∈ [9, 10, 11, 12, 13, 32, 47]) :
     p.stop (asciiRune c) = true := by
   have h1 : isIdentRune (asciiRune c) false = false ∧ isDecimal c = false ∧ (c == 95) = false ∧
       notFloatCont (asciiRune c) = true ∧ notBasePrefix (asciiRune c) = true ∧ (c == 61) = false := by
     simp only [List.mem_cons, List.not_mem_nil, or_false] at hc
-    rcases hc with h | h | h | h | h <;> subst h <;> decide
+    rcases hc with h | h | h | h | h | h | h <;> subst h <;> decide
   obtain ⟨a1, a2, a3, a4, a5, a6⟩ := h1
   cases p with
   | word rs => simp only [Piece.stop, a1, Bool.not_false]
@@ -222,7 +222,7 @@ theorem renderItems_head (items : List (Gap × Piece)) (tail : Gap) (hok : Items
     obtain ⟨c, Y, hY, hc⟩ := Gap.head g hg hne
     rw [hY, List.cons_append, HeadP_cons]
     simp only [List.mem_cons, List.not_mem_nil, or_false] at hc
-    rcases hc with h | h | h | h | h <;> subst h <;> decide
+    rcases hc with h | h | h | h | h | h | h <;> subst h <;> decide
   cases items with
   | nil =>
     simp only [ItemsOK] at hok
